@@ -182,7 +182,10 @@ static void exec_lp(void)
 
 /* ---- quoted values that span several lines: "a value starting with a quote being one item" ---- */
 static int q_sep, q_lines, q_ind, q_trail, q_before, q_rel, q_cfg;
-static void gen_q(void) { q_cfg = mc_choose(3); q_sep = mc_choose(3); q_lines = 1 + mc_choose(3);   /* 1 line: a value with ONE quote sign (27") */ q_ind = mc_choose(3); q_trail = mc_choose(6); q_before = mc_choose(4); q_rel = mc_choose(2); }
+static int q_shape;   /* 0: the quote opens on the key's line; 1: the key's line has no value, the quote opens on the first continuation line (the
+                       * value still STARTS with a quote: one item); 2: a quoted text that is closed on the key's line, followed by plain continuation
+                       * lines (the value does not start with a quote once the pair is stripped: one item per line) */
+static void gen_q(void) { q_shape = mc_choose(3); q_cfg = mc_choose(3); q_sep = mc_choose(3); q_lines = 1 + mc_choose(3);   /* 1 line: a value with ONE quote sign (27") */ q_ind = mc_choose(3); q_trail = mc_choose(6); q_before = mc_choose(4); q_rel = mc_choose(2); if (q_shape == 2 && q_lines == 1) q_lines = 2; }
 static void exec_q(void)
 {
   static const char *QD[3] = { "=", ":=", "=:" }   /* non-blank delimiter sets: only they have continuation lines */, *SEP[3] = { "=", " = ", "=\t" }, *IND[3] = { "  ", "\t", "    " };
@@ -190,13 +193,18 @@ static void exec_q(void)
   const char *TRAIL[6] = { "", "   ", "\t", "   # closing", " #c", "  \t  # closing" };
   const char *TCOM[6] = { NULL, NULL, NULL, " closing", "c", " closing" };
   sbuf f = {0}, item = {0}, sig = {0}, e1 = {0};
-  if (q_lines == 1) sb_puts(&item, "27\"");
+  const char *want2[3] = { "alpha beta", "line 2", "line 3" };
+  if (q_shape == 2) { sb_puts(&item, "\"alpha beta\""); for (int l = 1; l < q_lines; l++) sb_printf(&item, "\n%sline %d", IND[q_ind], l + 1); }
+  else if (q_shape == 1 && q_lines == 1) sb_puts(&item, "\"line one\"");
+  else if (q_lines == 1) sb_puts(&item, "27\"");
   else {
     sb_puts(&item, "\"line one");
     for (int l = 1; l < q_lines; l++) sb_printf(&item, "\n%sline %d", IND[q_ind], l + 1);
     sb_puts(&item, "\"");
   }
-  sb_printf(&f, "%sk%s%s%s\nafter=1\n", BEFORE[q_before], SEP[q_sep], item.s, TRAIL[q_trail]);
+  if (q_shape == 1) sb_printf(&f, "%sk%s\n%s%s%s\nafter=1\n", BEFORE[q_before], SEP[q_sep], IND[q_ind], item.s, TRAIL[q_trail]);
+  else sb_printf(&f, "%sk%s%s%s\nafter=1\n", BEFORE[q_before], SEP[q_sep], item.s, TRAIL[q_trail]);
+  int entry_lines = q_lines + (q_shape == 1);
   sb_puts(&sig, "file=\""); sb_put_esc(&sig, f.s, f.len); sb_printf(&sig, "\" delim=\"%s\" comment=\"#\" read-as=%s", QD[q_cfg], q_rel ? "f.conf" : "absolute path");
   snprintf(mc_case_sig, sizeof mc_case_sig, "%s", sig.s);
   mc_log("%s\n", sig.s);
@@ -214,10 +222,14 @@ static void exec_q(void)
     else {
       int nv = 0; while (ev->values && ev->values[nv]) nv++;
       int lines_before = q_before ? 1 : 0;
-      if (nv != 1) mc_fail(sig.s, "%s is reported as %d items instead of one; %s", q_lines == 1 ? "a one-line value" : "a value starting with a quote", nv, sig.s);
+      if (q_shape == 2) {
+        if (nv != q_lines) mc_fail(sig.s, "a value of %d lines whose first line is a complete quoted text is reported as %d items; %s", q_lines, nv, sig.s);
+        else for (int l = 0; l < q_lines; l++) if (strcmp(ev->values[l], want2[l])) { sb_reset(&e1); sb_put_escs(&e1, ev->values[l]); mc_fail(sig.s, "values[%d] = \"%s\", expected \"%s\"; %s", l, e1.s, want2[l], sig.s); break; }
+      } else
+      if (nv != 1) mc_fail(sig.s, "%s is reported as %d items instead of one; %s", q_lines == 1 && q_shape == 0 ? "a one-line value" : "a value starting with a quote", nv, sig.s);
       else if (strcmp(ev->values[0], item.s)) { sb_put_escs(&e1, ev->values[0]); mc_fail(sig.s, "values[0] = \"%s\": not the quoted text from the opening to the closing quote without outer blanks; %s", e1.s, sig.s); }
       if (!ev->file || strcmp(ev->file, abspath)) mc_fail(sig.s, "file = \"%s\", expected \"%s\"; %s", ev->file ? ev->file : "<NULL>", abspath, sig.s);
-      if (ev->line_number != (uint64_t)(lines_before + q_lines)) mc_fail(sig.s, "line_number = %llu, the entry ends on line %d; %s", (unsigned long long)ev->line_number, lines_before + q_lines, sig.s);
+      if (ev->line_number != (uint64_t)(lines_before + entry_lines)) mc_fail(sig.s, "line_number = %llu, the entry ends on line %d; %s", (unsigned long long)ev->line_number, lines_before + entry_lines, sig.s);
       if (q_before == 1 && !streq0(ev->comment_before_key, " block")) mc_fail(sig.s, "comment_before_key = \"%s\", expected \" block\"; %s", ev->comment_before_key ? ev->comment_before_key : "", sig.s);
       { sbuf a = {0}; join_nonempty(ev->comment_after_value, &a);
         if (strcmp(a.s, TCOM[q_trail] ? TCOM[q_trail] : "")) mc_fail(sig.s, "comment_after_value (non-empty parts) = \"%s\", the trailing comment text is \"%s\"; %s", a.s, TCOM[q_trail] ? TCOM[q_trail] : "", sig.s);
@@ -230,7 +242,7 @@ static void exec_q(void)
     econf_freeFile(kf);
   }
   mc_st->compared++; mc_st->nontrivial++;
-  mc_outcome((uint64_t)(((((q_cfg * 3 + q_sep) * 2 + q_lines) * 3 + q_ind) * 6 + q_trail) * 4 + q_before));
+  mc_outcome((uint64_t)((((((q_cfg * 3 + q_sep) * 4 + q_lines) * 3 + q_ind) * 6 + q_trail) * 4 + q_before) * 3 + q_shape));
   if (mc_want_sample()) mc_sample("%s", sig.s);
   sb_free(&f); sb_free(&item); sb_free(&sig); sb_free(&e1);
 }
